@@ -1282,7 +1282,7 @@ func TestVerifC03(t *testing.T) {
 
 	cases, steps := 160, 90
 	if tier == "thorough" {
-		cases, steps = 1600, 160
+		cases, steps = 1200, 160
 	}
 	if v, err := strconv.Atoi(os.Getenv("VERIF_C03_LINK_CASES")); err == nil && v >= 0 {
 		cases = v
